@@ -217,9 +217,11 @@ def pcc_setup(ctx):
     choice = ctx.choose(7, "flags-text")
     text = ["", "comments", "skip_default", "skip_null", "comments,skip_null", "skip_default,,comments", "bogus"][choice]
     given = ctx.choose(2, "value-is-None") == 0
+    # argparse hands over an *empty* list for `--print_config=--` (it strips the '--'): no flags, like no value (value[0] raised IndexError there; fixed)
+    empty = ctx.choose(2, "value-is-an-empty-list") == 1 if given and choice == 0 else False
     parser = Rec("ArgumentParser", attrs={})
     calls = {"argument_error": lambda c, a, k: ExcVal("ArgumentError", args=(a[0],), origin="argument_error"), "hasattr": lambda c, a, k: a[1] in a[0].attrs}
-    return Setup(env={"self": Rec("_ActionPrintConfig"), "parser": parser, "namespace": Rec("Namespace"), "value": [text] if given else None, "option_string": "--print_config"},
+    return Setup(env={"self": Rec("_ActionPrintConfig"), "parser": parser, "namespace": Rec("Namespace"), "value": ([] if empty else [text]) if given else None, "option_string": "--print_config"},
                  calls=calls, data=dict(text=text, given=given, parser=parser))
 
 
